@@ -307,8 +307,10 @@ CONST_DUMPS = [
 ]
 
 
-def register_const_dump(module, pkg, harness):
-    t = (module, pkg, harness)
+def register_const_dump(module, pkg, harness, test='TestVerifDumpConsts', tag=None):
+    """tag defaults to the package path with non-word characters replaced by '_' ; the output is
+    coq/theories/Gen/Consts_<tag>.v.  Use a distinct test name + tag for a second dump in one package."""
+    t = (module, pkg, harness, test, tag or re.sub(r'\W', '_', pkg))
     if t not in CONST_DUMPS:
         CONST_DUMPS.append(t)
 
@@ -326,8 +328,7 @@ def regen(force=False):
     changed = {}
     with Lock('gen'):
         # 1. constants: one go test per package (compiled from the current sources)
-        for (module, pkg, harness) in CONST_DUMPS:
-            tag = re.sub(r'\W', '_', pkg)
+        for (module, pkg, harness, test, tag) in CONST_DUMPS:
             key = hash_files(_src_files(module, pkg) + [harness])
             stamp = os.path.join(WORK, 'gen', tag + '.stamp')
             target = os.path.join(gen_dir, 'Consts_%s.v' % tag)
@@ -335,7 +336,7 @@ def regen(force=False):
                 changed[target] = False
                 continue
             out = os.path.join(WORK, 'gen', tag + '.out')
-            rc, o, _ = run_go(os.path.join(WORK, 'gen'), module, pkg, [harness], 'TestVerifDumpConsts$',
+            rc, o, _ = run_go(os.path.join(WORK, 'gen'), module, pkg, [harness], test + '$',
                               out_path=out, common=False, timeout=300)
             if rc != 0 or not os.path.exists(out):
                 raise RuntimeError('constant dump failed for %s/%s:\n%s' % (module, pkg, o[-3000:]))
